@@ -16,6 +16,8 @@
 (*          other             : another slot than the call's               *)
 (*          -                 : not attributable to a slot                 *)
 (*          lazy              : seen only when finally saved (lazy variant)*)
+(*          .../foreign-names : the document went through a package whose   *)
+(*                              header/footer parts are numbered as Word does*)
 (* "M11" signatures only record where the library differs from the          *)
 (* reference machine in ways the property does not fix (no verdict).        *)
 (***************************************************************************)
@@ -50,10 +52,12 @@ Judge(e) ==
       exp  == Apply(cur, e.op, ch)
       obs  == ObsPkg(e.pkg)
       own  == IF opn \in HfOps THEN SlotOf(e.op) ELSE [hf |-> "-", kind |-> "-"]
-      Cls(hf, kind) == IF e.lazy THEN "lazy"
-                       ELSE IF kind = "-" \/ opn \notin HfOps THEN "-"
-                       ELSE IF own.hf = hf /\ own.kind = kind THEN (IF cur.def[own].on THEN "redefine" ELSE "define")
-                       ELSE "other"
+      Base(hf, kind) == IF e.lazy THEN "lazy"
+                        ELSE IF kind = "-" \/ opn \notin HfOps THEN "-"
+                        ELSE IF own.hf = hf /\ own.kind = kind THEN (IF cur.def[own].on THEN "redefine" ELSE "define")
+                        ELSE "other"
+      \* abstract state class: has the document been through a package with foreign part names?
+      Cls(hf, kind) == IF exp.names = "foreign" THEN Base(hf, kind) \o "/foreign-names" ELSE Base(hf, kind)
   IN  (IF e.ret = "panic" THEN {<<"C11", opn, "-", "panic">>} ELSE {})
       \cup (IF e.ret \notin {"panic", "ok"} THEN {<<"C11", opn, "-", e.ret>>} ELSE {})
       \cup (IF ~e.seen THEN {}
@@ -69,7 +73,7 @@ Judge(e) ==
                             \cup (IF Bag(obs.refs) # Bag(exp.pkg.refs) THEN {<<"M11", name, "refs">>} ELSE {})
                             \cup (IF Bag(HfRels(obs)) # Bag(HfRels(exp.pkg)) THEN {<<"M11", name, "rels">>} ELSE {})
                             \cup (IF HfParts(obs) # HfParts(exp.pkg) THEN {<<"M11", name, "parts">>} ELSE {}))
-                 \cup (IF e.lazy \/ e.ret # "ok" \/ opn \in HfOps THEN {}
+                 \cup (IF e.lazy \/ e.ret # "ok" \/ opn \in HfOps \/ (opn = "Reopen" /\ e.op.via = "word") THEN {}
                        ELSE (IF Bag(obs.refs) # Bag(exp.pkg.refs) THEN {<<"M11", name, "refs">>} ELSE {})
                             \cup (IF Bag(HfRels(obs)) # Bag(HfRels(exp.pkg)) THEN {<<"M11", name, "rels">>} ELSE {})
                             \cup (IF obs.evenOdd # exp.pkg.evenOdd THEN {<<"M11", name, "evenOdd">>} ELSE {})))
@@ -77,9 +81,9 @@ Judge(e) ==
 Resync(e) ==
   LET exp == Apply(cur, e.op, ChoiceOf(e))
   IN IF e.seen /\ e.pkg.ok = "ok"
-     THEN [pkg |-> ObsPkg(e.pkg), def |-> [s \in Slots |-> SlotContent(ObsPkg(e.pkg), s)], clk |-> e.i + 1]
+     THEN [pkg |-> ObsPkg(e.pkg), def |-> [s \in Slots |-> SlotContent(ObsPkg(e.pkg), s)], clk |-> e.i + 1, names |-> exp.names]
      \* nothing was written: the ghost definitions and the flag follow the specification
-     ELSE [pkg |-> [cur.pkg EXCEPT !.titlePg = exp.pkg.titlePg], def |-> exp.def, clk |-> e.i + 1]
+     ELSE [pkg |-> [cur.pkg EXCEPT !.titlePg = exp.pkg.titlePg], def |-> exp.def, clk |-> e.i + 1, names |-> exp.names]
 
 TInit == l = 1 /\ cur = InitSt /\ wit = {}
 
